@@ -228,6 +228,10 @@ def run_solver(text, argv_tail, env=None, *, na=None, time_limit=None,
         ctx.read_log = _READLOG
         if _READLOG is not None:
             _READLOG.flush()
+    elif real == "shadow":
+        scratch()
+        fakecbc.install_shadow()
+        vclock.uninstall()
     else:
         fakecbc.uninstall()
         vclock.uninstall()
